@@ -11,6 +11,7 @@ package main
 import (
 	"fmt"
 	"go/ast"
+	"go/constant"
 	"go/importer"
 	"go/printer"
 	"go/token"
@@ -26,6 +27,7 @@ type inlineCand struct {
 	obj    *types.Func
 	expr   ast.Expr
 	params []*types.Var
+	method bool // a computed accessor: params[0] is the receiver
 }
 
 func basicTypeExpr(t types.Type) (ast.Expr, bool) {
@@ -166,8 +168,36 @@ func inlinePackage(p *packages.Package, newTypes map[string]*types.Package, leve
 	for _, f := range p.Syntax {
 		for _, d := range f.Decls {
 			fd, ok := d.(*ast.FuncDecl)
-			if !ok || fd.Recv != nil || fd.Body == nil || len(fd.Body.List) != 1 || fd.Type.TypeParams != nil {
+			if !ok || fd.Body == nil || len(fd.Body.List) != 1 || fd.Type.TypeParams != nil {
 				continue
+			}
+			// computed accessors: a method without parameters whose body is one arithmetic expression over the
+			// receiver's fields (SectionWriter.Size: limit - base) reads, at a call x.Size() on a plain variable, like
+			// the expression. Bare getters and everything the rules look for by name stay calls.
+			isAccessor := false
+			if fd.Recv != nil {
+				if len(fd.Recv.List) != 1 || len(fd.Recv.List[0].Names) != 1 || fd.Type.Params == nil || len(fd.Type.Params.List) != 0 {
+					continue
+				}
+				ret, ok := fd.Body.List[0].(*ast.ReturnStmt)
+				if !ok || len(ret.Results) != 1 {
+					continue
+				}
+				if _, isBin := ast.Unparen(ret.Results[0]).(*ast.BinaryExpr); !isBin {
+					continue
+				}
+				plain := true
+				ast.Inspect(ret.Results[0], func(n ast.Node) bool {
+					switch n.(type) {
+					case *ast.CallExpr, *ast.FuncLit, *ast.IndexExpr, *ast.SliceExpr, *ast.StarExpr, *ast.UnaryExpr:
+						plain = false
+					}
+					return plain
+				})
+				if !plain {
+					continue
+				}
+				isAccessor = true
 			}
 			ret, ok := fd.Body.List[0].(*ast.ReturnStmt)
 			if !ok || len(ret.Results) != 1 || fd.Type.Results == nil || len(fd.Type.Results.List) != 1 || len(fd.Type.Results.List[0].Names) > 0 {
@@ -177,7 +207,7 @@ func inlinePackage(p *packages.Package, newTypes map[string]*types.Package, leve
 			if !ok {
 				continue
 			}
-			if obj.Exported() || inlineKeep[p.Types.Name()+"."+obj.Name()] {
+			if (obj.Exported() && !isAccessor) || inlineKeep[p.Types.Name()+"."+obj.Name()] {
 				continue // exported API functions and the helpers the rules are anchored at by name (rules look for calls to them) stay functions
 			}
 			sig := obj.Type().(*types.Signature)
@@ -186,6 +216,14 @@ func inlinePackage(p *packages.Package, newTypes map[string]*types.Package, leve
 			}
 			c := &inlineCand{decl: fd, obj: obj, expr: ret.Results[0]}
 			okc := true
+			if isAccessor {
+				rv, _ := info.Defs[fd.Recv.List[0].Names[0]].(*types.Var)
+				if rv == nil || rv.Name() == "_" {
+					continue
+				}
+				c.params = append(c.params, rv)
+				c.method = true
+			}
 			for i := 0; i < sig.Params().Len(); i++ {
 				pv := sig.Params().At(i)
 				if pv.Name() == "" || pv.Name() == "_" {
@@ -220,16 +258,42 @@ func inlinePackage(p *packages.Package, newTypes map[string]*types.Package, leve
 	var checks []check
 	var curFile *ast.File
 	rewrite := func(call *ast.CallExpr) ast.Expr {
-		id, ok := call.Fun.(*ast.Ident)
-		if !ok {
-			return nil
+		var fobj *types.Func
+		var c *inlineCand
+		callArgs := call.Args
+		if sel, isSel := call.Fun.(*ast.SelectorExpr); isSel {
+			// x.Accessor() on a plain variable
+			recv, isId := sel.X.(*ast.Ident)
+			if !isId || len(call.Args) != 0 {
+				return nil
+			}
+			if _, isVar := info.Uses[recv].(*types.Var); !isVar {
+				return nil
+			}
+			fobj, _ = info.Uses[sel.Sel].(*types.Func)
+			if fobj == nil {
+				return nil
+			}
+			c = cands[fobj]
+			if c == nil || !c.method {
+				return nil
+			}
+			callArgs = []ast.Expr{recv}
+		} else {
+			id, ok := call.Fun.(*ast.Ident)
+			if !ok {
+				return nil
+			}
+			fobj, ok = info.Uses[id].(*types.Func)
+			if !ok {
+				return nil
+			}
+			c = cands[fobj]
+			if c != nil && c.method {
+				return nil
+			}
 		}
-		fobj, ok := info.Uses[id].(*types.Func)
-		if !ok {
-			return nil
-		}
-		c := cands[fobj]
-		if c == nil || len(call.Args) != len(c.params) || call.Ellipsis.IsValid() {
+		if c == nil || len(callArgs) != len(c.params) || call.Ellipsis.IsValid() {
 			return nil
 		}
 		// imported package names used by the helper must mean the same package in the caller's file
@@ -264,7 +328,7 @@ func inlinePackage(p *packages.Package, newTypes map[string]*types.Package, leve
 		})
 		argFor := map[*types.Var]ast.Expr{}
 		for i, pv := range c.params {
-			a := call.Args[i]
+			a := callArgs[i]
 			if occ[pv] != 1 && !pureArg(a) {
 				return nil
 			}
@@ -366,6 +430,42 @@ func inlinePackage(p *packages.Package, newTypes map[string]*types.Package, leve
 				return true
 			})
 		}
+	}
+	// unsigned division / remainder by a constant power of two are the shift and the mask (`path / (1<<32)` reads
+	// `path >> 32`, `path % (1<<32)` reads `path & 0xffffffff`): exact for unsigned operands of any width
+	for _, f := range files {
+		ast.Inspect(f, func(nd ast.Node) bool {
+			be, ok := nd.(*ast.BinaryExpr)
+			if !ok || (be.Op != token.QUO && be.Op != token.REM) {
+				return true
+			}
+			tx, okx := info.Types[be.X]
+			ty, oky := info.Types[be.Y]
+			if !okx || !oky || tx.Value != nil || ty.Value == nil || tx.Type == nil {
+				return true
+			}
+			b, ok := tx.Type.Underlying().(*types.Basic)
+			if !ok || b.Info()&types.IsUnsigned == 0 {
+				return true
+			}
+			u, exact := constant.Uint64Val(constant.ToInt(ty.Value))
+			if !exact || u == 0 || u&(u-1) != 0 {
+				return true
+			}
+			k := 0
+			for u>>uint(k) != 1 {
+				k++
+			}
+			if be.Op == token.QUO {
+				be.Op = token.SHR
+				be.Y = &ast.BasicLit{ValuePos: be.Y.Pos(), Kind: token.INT, Value: fmt.Sprint(k)}
+			} else {
+				be.Op = token.AND
+				be.Y = &ast.BasicLit{ValuePos: be.Y.Pos(), Kind: token.INT, Value: fmt.Sprintf("%#x", u-1)}
+			}
+			nInl++
+			return true
+		})
 	}
 	// standard-library synonyms: bits.LenN(x) is N - bits.LeadingZerosN(x) by definition (math/bits); the rules
 	// speak about LeadingZeros only
